@@ -26,7 +26,7 @@ def renderData (r : Res Model.Base58.B58Data) : String :=
   | .ok d => "ok:" ++ toString d.nVersion.toNat ++ "," ++ toHex d.data
   | .error e => "err:" ++ e.family
 
-def handle (op : String) (args : List String) : Option String :=
+def handle1 (op : String) (args : List String) : Option String :=
   match op, args with
   -- encode(b), then decode(encode(b))
   | "c10.encode", [b] => some <| match parseHex? b with
@@ -76,5 +76,49 @@ def handle (op : String) (args : List String) : Option String :=
                            | .error e => "err:" ++ e.family)
       | _, _ => badArgs
   | _, _ => none
+
+/-- one step of a call history `k:arg[:arg]`; a leading `=` (the harness re-uses the identical Python
+    object of an earlier step) means nothing to the stateless model -/
+def stepOut (step : String) : String :=
+  let step := if step.startsWith "=" then (step.drop 1).toString else step
+  let r := match step.splitOn ":" with
+    | ["e", b] => handle1 "c10.encode" [b]
+    | ["d", t] => handle1 "c10.decode" [t]
+    | ["c", t] => handle1 "c10.check" [t]
+    | ["s", v, p] => handle1 "c10.str" [v, p]
+    | ["f", v, p] => handle1 "c10.frombytes" [v, p]
+    | _ => none
+  r.getD badArgs
+
+/-- observers of one CBase58Data instance, in the given order -/
+def observe (d : Model.Base58.B58Data) (obs : String) : String :=
+  let text := String.ofList (Model.Base58.str H d)
+  joinWith "/" <| obs.toList.map fun o =>
+    match o with
+    | 's' => text
+    | 'b' => toHex d.data                    -- bytes(d)
+    | 't' => toHex d.data                    -- d.to_bytes()
+    | 'v' => toString d.nVersion.toNat
+    | 'r' => "CBase58Data('" ++ text ++ "')"
+    | 'e' => "True"                          -- d == bytes(d)
+    | 'h' => "True"                          -- hash(d) == hash(bytes(d))
+    | _ => "?"
+
+def handle (op : String) (args : List String) : Option String :=
+  match op, args with
+  -- a history of calls in one process: every call answers as if it were the first (no state)
+  | "c10.seq", steps => some (joinWith " ; " (steps.map stepOut))
+  -- one instance observed through several observers in the given order
+  | "c10.obj", ["new", t, _, obs] => some <| match parseText? t with
+      | some t => (match Model.Base58.new H t with
+                   | .ok d => observe d obs
+                   | .error e => "err:" ++ e.family)
+      | none => badArgs
+  | "c10.obj", ["fb", v, p, obs] => some <| match parseInt? v, parseHex? p with
+      | some v, some p => (match Model.Base58.fromBytes p v with
+                           | .ok d => observe d obs
+                           | .error e => "err:" ++ e.family)
+      | _, _ => badArgs
+  | _, _ => handle1 op args
 
 end Driver.C10
